@@ -323,12 +323,17 @@ func (o *structFieldsCBOR) FromCBOR(dm cbor.DecMode, data []byte) error {
 
 	var mapLen int
 
+	// note: processAdditionalInfo reports indefinite-length encoding as
+	// mapLen 0, which is indistinguishable from an empty definite-length
+	// map; so check the additional information directly.
+	isIndefinite := additionalInfo == 31
+
 	mapLen, rest, err = processAdditionalInfo(additionalInfo, rest)
 	if err != nil {
 		return err
 	}
 
-	if mapLen != 0 {
+	if !isIndefinite {
 		o.Fields = make(map[int]cbor.RawMessage, mapLen)
 
 		for i := 0; i < mapLen; i++ {
@@ -337,7 +342,7 @@ func (o *structFieldsCBOR) FromCBOR(dm cbor.DecMode, data []byte) error {
 				return fmt.Errorf("map item %d: %w", i, err)
 			}
 		}
-	} else { // mapLen == 0 --> indefinite encoding
+	} else { // indefinite encoding
 		o.Fields = make(map[int]cbor.RawMessage)
 
 		i := 0
